@@ -95,6 +95,19 @@ MUTATIONS = [
     ("c19-where-overwritten", "C19", "daemon/config/mapping.py",
      "            if err.where is None:\n                raise ConfigurationError(what=err.what, where=where) from err\n            raise",
      "            raise ConfigurationError(what=err.what, where=where) from err"),
+    ("c04-construct-args-order", "C04", "interfaces/_partial.py",
+     "        return self.ctor(*args, *self.args, **kwargs, **self.kwargs)",
+     "        return self.ctor(*args, *reversed(self.args), **kwargs, **self.kwargs)"),
+    ("c04-bind-drops-middle", "C04", "interfaces/_partial.py",
+     "            for owner in reversed(self.targets[:-1]):", "            for owner in reversed(self.targets[1:-1]):"),
+    ("c04-curry-kw-override", "C04", "interfaces/_partial.py",
+     "            self.ctor, *self.args, *args, __leaf__=self.leaf, **self.kwargs, **kwargs",
+     "            self.ctor, *self.args, *args, __leaf__=self.leaf, **{**self.kwargs, **kwargs}"),
+    ("c04-revert-fix", "C04", "daemon/runners/service.py",
+     "        __new_service__.__signature__ = inspect.signature(\n            raw_cls.__init__ if __new__ is object.__new__ else __new__\n        )\n",
+     ""),
+    ("c04-leaf-curry-loses-leaf", "C04", "interfaces/_partial.py",
+     "            self.ctor, *self.args, *args, __leaf__=self.leaf,", "            self.ctor, *self.args, *args, __leaf__=self.leaf and not args,"),
 ]
 
 
